@@ -1167,6 +1167,11 @@ class DataGen:
             return None
         if n in gs.objects:
             rt = n
+            if p and r.random() < p / 2:
+                # a value that is not an object at an object-typed position: CompleteValue does not
+                # inspect it, every sub-field resolves to null
+                self.injected.append("non_object_at_object_position")
+                return r.choice(["id-1", 5, True, 0.5, [1, "x"], [], BAD])
         else:
             rt = r.choice(sorted(gs.poss(n)))
         obj = self.obj(rt, depth - 1)
